@@ -158,6 +158,113 @@ def run_case(case):
                     add('interleaved:result-differs-from-alone:whfast512:process-global-constants' if ma != mb else 'interleaved:result-differs-from-alone:whfast512:equal-systems',
                         'two WHFast512 simulations (stellar masses %r and %r, gr_potential=%d) stepped alternately in one thread: the %s one ends %.3e away from where it ends when run alone' % (ma, mb, gr, nm, dd))
             cells.add(json.dumps(['whfast512', ma != mb, gr]))
+    elif kind == 'portconflict':
+        # ---------------------------------------------------------------- a server that could not start, next to servers that could
+        # A serves on a free port.  B is asked to serve on the SAME port: its bind fails.  Afterwards C starts its own server (it may well
+        # receive the descriptor number B's failed socket had) and integrates while a client polls it.  B is then stopped / freed.  Whatever
+        # B's failed start left behind must not touch A's or C's sockets: every request to C and to A succeeds, C's snapshots load and C ends
+        # where an unserved twin ends.
+        import rebound, urllib.request, gc
+        from vf import rt
+        rr = random.Random(r.getrandbits(40))
+
+        def freeport():
+            s_ = socket.socket()
+            s_.bind(('127.0.0.1', 0))
+            p_ = s_.getsockname()[1]
+            s_.close()
+            return p_
+
+        def fetch(port_):
+            with urllib.request.urlopen('http://127.0.0.1:%d/simulation' % port_, timeout=5) as resp:
+                return resp.read()
+        spec = gen.random_spec(rr, integ=rr.choice(['whfast', 'leapfrog', 'ias15']), allow_var=False, nmax=2)
+        a = gen.build_sim(spec)
+        pa = freeport()
+        try:
+            a.start_server(port=pa)
+        except Exception as e:
+            add('server:could-not-start', repr(e)[:200])
+            a = None
+        if a is not None:
+            nfail = 0
+            bs = []
+            for _k in range(rr.choice([1, 2, 3])):
+                b = gen.build_sim(spec)
+                try:
+                    b.start_server(port=pa)         # busy: must fail (an exception, or a server that is simply not there)
+                except Exception:
+                    nfail += 1
+                bs.append(b)
+            counters['portconflict_failed_starts'] = nfail
+            c = gen.build_sim(spec)
+            twin = gen.build_sim(spec)
+            pc = freeport()
+            try:
+                c.start_server(port=pc)
+            except Exception as e:
+                add('server:could-not-start', 'second simulation on a free port: ' + repr(e)[:200])
+                c = None
+            if c is not None:
+                order = rr.choice(['free-then-poll', 'poll-then-free'])
+                got, errs = [], []
+                if order == 'free-then-poll':
+                    for b in bs:
+                        if rr.random() < 0.5:
+                            try:
+                                b.stop_server()
+                            except Exception:
+                                pass
+                    del bs[:]
+                    b = None
+                    gc.collect()
+                nst = 300
+                th = threading.Thread(target=lambda: c.steps(nst))
+                th.start()
+                for _q in range(8):
+                    try:
+                        got.append(fetch(pc))
+                    except Exception as e:
+                        errs.append(repr(e)[:120])
+                    if order == 'poll-then-free' and _q == 2:
+                        del bs[:]
+                        b = None
+                        gc.collect()
+                    time.sleep(0.01)
+                th.join()
+                for _q in range(2):
+                    try:
+                        got.append(fetch(pc))
+                    except Exception as e:
+                        errs.append(repr(e)[:120])
+                try:
+                    fetch(pa)
+                except Exception as e:
+                    add('server:other-simulations-server-gone-after-a-failed-start-elsewhere', 'simulation A (port %d) no longer answers after B failed to bind that port and was freed: %r' % (pa, e))
+                counters['portconflict_requests'] = len(got) + len(errs)
+                if errs:
+                    add('server:other-simulations-server-gone-after-a-failed-start-elsewhere', 'simulation C (own free port %d): %d of %d requests failed after %d failed starts of other simulations on a busy port (%s): %s' % (pc, len(errs), len(errs) + len(got), nfail, order, errs[0]))
+                for body in got:
+                    try:
+                        rebound.Simulation(body)
+                    except Exception as e:
+                        add('server:response-not-a-snapshot', 'port-conflict history: %s: %s' % (type(e).__name__, e))
+                        break
+                twin.steps(nst)
+                c.synchronize()
+                twin.synchronize()
+                if rt.digest(rt.sabin_sim(c)) != rt.digest(rt.sabin_sim(twin)):
+                    add('server:served-run-differs-from-unserved-run', 'port-conflict history: served simulation ends elsewhere than its unserved twin')
+                try:
+                    c.stop_server()
+                except Exception:
+                    pass
+            try:
+                a.stop_server()
+            except Exception:
+                pass
+            counters['portconflict_runs'] = 1
+            cells.add(json.dumps(['portconflict', spec['integrator']]))
     elif kind == 'bystander':
         # ---------------------------------------------------------------- a served simulation next to an unrelated one
         # Simulation A runs its built-in server and is polled by clients.  In other threads of the same process (i) simulation B
@@ -418,6 +525,8 @@ def main(tier, seed):
         cases['rel'].append(dict(kind='server', seed=r.getrandbits(40), unsafe=i % 2, calls=[0, 0, 60, 60][i % 4]))
     for i in range(3 if q else 24):
         cases['rel'].append(dict(kind='bystander', seed=r.getrandbits(40), secs=2.0 if q else 4.0))
+    for i in range(6 if q else 40):
+        cases['rel'].append(dict(kind='portconflict', seed=r.getrandbits(40)))
     if have512:
         cases['avx512'].append(dict(kind='whfast512', seed=r.getrandbits(40)))
         for i in range(2 if q else 12):
@@ -430,7 +539,7 @@ def main(tier, seed):
         for c, rr in zip(cs, res):
             V.absorb(c, rr, crash_mech=crash_mech)
     inc = []
-    for k in ('cdriver_runs', 'cdriver_module_runs', 'cdriver_jobs_compared', 'tsan_runs', 'pythread_rounds', 'pythread_sims_compared', 'server_runs', 'server_runs_unsynchronised', 'server_snapshots', 'server_snapshots_mid_run', 'bystander_requests_served', 'bystander_snapshots', 'bystander_fd_cycles'):
+    for k in ('cdriver_runs', 'cdriver_module_runs', 'cdriver_jobs_compared', 'tsan_runs', 'pythread_rounds', 'pythread_sims_compared', 'server_runs', 'server_runs_unsynchronised', 'server_snapshots', 'server_snapshots_mid_run', 'bystander_requests_served', 'bystander_snapshots', 'bystander_fd_cycles', 'portconflict_runs', 'portconflict_failed_starts', 'portconflict_requests'):
         if V.counters.get(k, 0) == 0:
             inc.append('monitor counter %s is zero' % k)
     return V.finish(
